@@ -657,7 +657,7 @@ def validate_conc(work, trace, witness=False, timeout=600):
     return "inconclusive", None, res
 
 
-def conc_stage(rep, work, name, systems, clients, runs, ops, keys, gated, race=False, witness=False, timeout=900):
+def conc_stage(rep, work, name, systems, clients, runs, ops, keys, gated, race=False, witness=False, timeout=900, seq=0):
     tag = re.sub(r"\W", "_", name)
     trace = work.path("conc.%s.ndjson" % tag)
     out = work.path("conc.%s.json" % tag)
@@ -665,6 +665,8 @@ def conc_stage(rep, work, name, systems, clients, runs, ops, keys, gated, race=F
     cmd = [binary, "conc", "--systems", ",".join(systems), "--seed", str(rep.seed), "--runs", str(runs),
            "--clients", ",".join(str(c) for c in clients), "--ops", str(ops), "--keys", str(keys),
            "--trace", trace, "--out", out, "--gated=%s" % ("true" if gated else "false")]
+    if seq:
+        cmd += ["--seq", str(seq)]
     env = dict(os.environ, GORACE="halt_on_error=0 history_size=3")
     p = subprocess.run(cmd, capture_output=True, text=True, env=env, timeout=timeout)
     err = p.stderr
